@@ -13,9 +13,19 @@ Streams (model vs real code)
   script     Script.search / complete_search vs Model.Search.searchFilter over Script.get_names
   search     Project.search / complete_search (x all_scopes x type prefix x patched limits) vs
              Model.Search.projectSearch fed with what the generator knows about every file
+  clash      the same two calls on trees of gen/c19_clash.py, in which FILE NAMES and IDENTIFIERS
+             collide (foo.py defining foo / foo_x / class foo, packages foo/__init__.py defining foo,
+             stubs foo.pyi, foo-stubs/), queries = a file name, a prefix of one, a prefix shared by
+             file names and identifiers, type-qualified and dotted strings; the .py-only trees also
+             go through Model.Search.projectSearch (stream search)
 Direct oracles (the property itself, independent of the model)
   search-complete  every definition the generator wrote with that spelling, in a file that is not
                    in an ignored place, is reported (within the limits); every module / package so named
+  clash-oracle     completeness decided without jedi AND without generator book-keeping: python's `ast`
+                   lists every definition (module level; nested for all_scopes) of every generated
+                   .py / .pyi file; each expected (path, line, column, name, TYPE) must be among the
+                   results (the module hit for foo.py sits on line 1 like a definition on line 1: the
+                   type tells them apart); failures are reported under search-complete / search-negative
   search-negative  nothing under venv/.venv/.tox/.mypy_cache/__pycache__ or a .gitignore entry
   script-oracle    Script.search == get_names filtered by spelling and type
 """
@@ -27,6 +37,7 @@ from pathlib import Path
 
 import common
 from common import short
+from gen import c19_clash as CL
 
 MODELS = ['Walk', 'Search']
 MANIFEST = dict(
@@ -42,13 +53,24 @@ MANIFEST = dict(
          'of any directory on the way exclude the folders and the files they name, wherever .gitignore stands in its '
          'listing; conversely a python file that no .gitignore at or above its directory names (and no ignore folder / '
          'except path covers) is yielded, whatever other .gitignore files the tree holds (separator-aware test = '
-         'ancestor-or-self on name chains); every tree position is yielded at most once. Tie: translator (accepts only '
+         'ancestor-or-self on name chains); every tree position is yielded at most once. Project._search_func: the '
+         'translator transcribes the file branch of the step-1 loop statement by statement (where file_ios.append '
+         'stands), the model executes the transcription, and over it: search_scans_every_file (every file the walk '
+         'yields is handed to step 2, named like the search word or not), search_complete (within the parse limit every '
+         'definition with the requested spelling and type in every yielded file is among the results), '
+         'search_modules_complete (every module / package so named), with a kernel-checked witness that the append in '
+         'the else-branch of the file-name test loses the definitions of a same-named file. Tie: translator (accepts only '
          'the fixed source shape) + correspondence on generated project trees on disk + direct completeness / negative '
-         'oracles from generator knowledge; the three former defects stay in the run as fixed probes.',
+         'oracles from generator knowledge; the three former defects stay in the run as fixed probes. Stream clash: '
+         'project trees in which file names and identifiers collide (foo.py defining foo / foo_x / class foo, packages, '
+         'stubs), judged by an oracle that reads every definition (path, line, column, name, type) off the files with '
+         "python's ast.",
     note='Modelled not verified: os.walk / os.scandir (listing order is a parameter, the shim and the real order are '
          'both exercised), pathlib suffix (checked stream), the regex pre-filter (parameter `mentions`), '
          'get_module_names (the generator supplies the definitions it wrote), str.lower (parameter), step 3 of '
-         'Project._search_func beyond the project directory, dotted search strings (inference).',
+         'Project._search_func beyond the project directory, dotted search strings (inference; only the negative '
+         'clause is judged on them), stub-to-python conversion of module hits (trees with .pyi files are judged by the '
+         'direct oracle only).',
     technique='Lean 4 proof over hand-written model + translator-generated constants + differential correspondence',
     design='5.C19')
 LEAN_TARGETS = ['JediModel.Props.C19', 'JediModel.Drivers.C19']
@@ -785,6 +807,36 @@ def run_search_impl(project, root, q, complete, all_scopes):
     return out
 
 
+def negative_check(ctx, t, case, got, how):
+    """nothing from ignored places; got = {(relpath, line, name, type)}"""
+    for rel, line, name, typ in sorted(got, key=repr):
+        why = ignored_reason(t, rel)
+        if why is not None:
+            base = rel.rsplit('/', 1)[-1]
+            is_init = base in ('__init__.py', '__init__.pyi')
+            top_mod = typ == 'module' and (rel.count('/') == 0 or (rel.count('/') == 1 and is_init))
+            # a package whose folder is not in an ignored place, only its __init__.py is named by an entry
+            pkg_init = (typ == 'module' and is_init and not top_mod
+                        and ignored_reason(t, rel[:-len(base)] + '\x00') is None)
+            # a dotted string whose first word is a module / package directly in the project root
+            # (step 3 finds it on sys.path), the hit is an attribute of that module
+            first = case.get('string', '').rpartition(' ')[2].split('.')[0]
+            top_file = rel.count('/') == 0 or (rel.count('/') == 1 and is_init)
+            own_mod = rel.split('/')[0] if is_init else base[:base.rindex('.')] if '.' in base else base
+            dotted_top = ('.' in case.get('string', '').rpartition(' ')[2] and top_file and own_mod == first)
+            # X.py is in an ignored place, its stub X.pyi is not: the module hit for the stub is
+            # converted to the python file
+            stub_sib = False
+            if typ == 'module' and base.endswith('.py'):
+                stub_sib = any(r == rel + 'i' for r, _ in CL.src_files(t)) and ignored_reason(t, rel + 'i') is None
+            ctx.fail('search-negative', 'result from an ignored place',
+                     dict(case, cause=why[0], rule=why[1], file=rel, result_type=typ, top_level_module=top_mod,
+                          package_with_ignored_init=pkg_init, dotted_via_top_level_module=dotted_top,
+                          stub_sibling_not_ignored=stub_sib),
+                     expected='nothing reported from %s (%s)' % (rel, why[1]),
+                     observed={'path': rel, 'line': line, 'name': name, 'type': typ}, how=how)
+
+
 def search_oracle(ctx, t, root, case, q, complete, all_scopes, parse_limit, impl):
     wt, _, word = q.rpartition(' ')
     wt = 'function' if wt == 'def' else wt
@@ -794,19 +846,7 @@ def search_oracle(ctx, t, root, case, q, complete, all_scopes, parse_limit, impl
     got_files = {g[0] for g in got}
     how = ("materialise input.tree; jedi.Project(root).%s(%r, all_scopes=%r)  (./check C19 --replay <file>)"
            % ('complete_search' if complete else 'search', q, all_scopes))
-    # ---- negative: nothing from ignored places
-    for rel, line, name, typ in sorted(got, key=repr):
-        why = ignored_reason(t, rel)
-        if why is not None:
-            top_mod = typ == 'module' and (rel.count('/') == 0 or (rel.count('/') == 1 and rel.endswith('/__init__.py')))
-            # a package whose folder is not in an ignored place, only its __init__.py is named by an entry
-            pkg_init = (typ == 'module' and rel.endswith('/__init__.py') and not top_mod
-                        and ignored_reason(t, rel[:-len('__init__.py')] + '\x00') is None)
-            ctx.fail('search-negative', 'result from an ignored place',
-                     dict(case, cause=why[0], rule=why[1], file=rel, result_type=typ, top_level_module=top_mod,
-                          package_with_ignored_init=pkg_init),
-                     expected='nothing reported from %s (%s)' % (rel, why[1]),
-                     observed={'path': rel, 'line': line, 'name': name, 'type': typ}, how=how)
+    negative_check(ctx, t, case, got, how)
     # ---- completeness
     regex = re.compile(r'\b' + re.escape(word) + (r'' if complete else r'\b'))
     mention_files = [rel for rel, f in py_files(t) if regex.search(f['content'])]
@@ -901,22 +941,275 @@ def run_search_case(ctx, t, q, complete, all_scopes, parse_limit, mode, reqs, ca
     return impl
 
 
-def stream_search(ctx, reqs):
+# ----- the end-to-end searches run in fresh worker processes (common.parallel_map): the main process
+# generates trees and queries (all random choices), writes every tree to a wire file, the workers
+# materialise it under their own scratch directory, run the real search and build the model request
+# (both depend on the absolute root), the main process judges the answers.
+
+def tree_to_wire(t):
+    def f_(f):
+        d = {'name': f['name'], 'content': f['content']}
+        if '_defs' in f:
+            d['defs'] = [[x.name, x.type, x.line, x.col, x.top] for x in f['_defs']]
+        return d
+    return {'name': t.get('name', ''), 'files': [f_(f) for f in t['files']],
+            'dirs': [tree_to_wire(d) for d in t['dirs']]}
+
+
+def tree_from_wire(j):
+    def f_(f):
+        d = {'name': f['name'], 'content': f['content']}
+        if 'defs' in f:
+            d['_defs'] = [Def(*x) for x in f['defs']]
+        return d
+    return {'name': j.get('name', ''), 'files': [f_(f) for f in j['files']],
+            'dirs': [tree_from_wire(d) for d in j['dirs']]}
+
+
+_wire_dir = [None]
+_wire_n = [0]
+
+
+def write_wire(t):
+    import json
+    if _wire_dir[0] is None:
+        _wire_dir[0] = os.path.join(SCRATCH, 'wire-%d' % os.getpid())
+        shutil.rmtree(_wire_dir[0], ignore_errors=True)
+        os.makedirs(_wire_dir[0])
+    _wire_n[0] += 1
+    p = os.path.join(_wire_dir[0], '%d.json' % _wire_n[0])
+    with open(p, 'w') as f:
+        json.dump(tree_to_wire(t), f)
+    return p
+
+
+_wcache = {}
+
+
+def _worker_tree(path):
+    """worker side: the tree of a wire file, materialised once per process"""
+    import atexit
+    import json
+    if path not in _wcache:
+        if not _wcache:
+            atexit.register(lambda: [cleanup(r) for _, r in _wcache.values()])
+        for _, r in _wcache.values():          # items of one tree are consecutive
+            cleanup(r)
+        _wcache.clear()
+        with open(path) as f:
+            t = tree_from_wire(json.load(f))
+        _wcache[path] = (t, materialise(t))
+    return _wcache[path]
+
+
+def search_worker(item):
+    """one Project.search / complete_search on a materialised tree.  -> {'root', 'impl': [[abs module
+    path, line, column, name, type]] | None, 'exc', 'req': the request for the Lean model | None}"""
+    import jedi
+    from jedi.inference import references
+    t, root = item['tree'] if item.get('wire') is None else _worker_tree(item['wire'])
+    q, complete, all_scopes = item['string'], item['complete'], item['all_scopes']
+    parse_limit, mode = item['parse_limit'], item['mode']
+    old = references._PARSED_FILE_LIMIT
+    references._PARSED_FILE_LIMIT = parse_limit
+    out = {'root': root, 'impl': None, 'exc': None, 'req': None}
+    try:
+        with shim_os(None if mode == 'real' else OsShim(mode)):
+            try:
+                project = jedi.Project(root)
+                f = project.complete_search if complete else project.search
+                impl = []
+                for n in f(q, all_scopes=all_scopes):
+                    mp = n.module_path
+                    if mp is None:
+                        continue
+                    mp = str(mp)
+                    if not (mp == root or mp.startswith(root + '/')):
+                        continue                  # step 3: modules elsewhere on sys.path
+                    impl.append([mp, n.line, n.column, n.name, n.type])
+                out['impl'] = impl
+            except Exception as e:                # totality is C01's business
+                out['exc'] = type(e).__name__
+                out['exc_site'] = '%s:%s' % common.exc_site(e)
+    finally:
+        references._PARSED_FILE_LIMIT = old
+    if item.get('model') and out['impl'] is not None and '.' not in q.rpartition(' ')[2]:
+        out['req'] = build_search_request(t, root, mode, q, complete, all_scopes, parse_limit,
+                                          references._OPENED_FILE_LIMIT)
+    return out
+
+
+def plan_case(plan, t, wire, q, complete, all_scopes, parse_limit, mode, kind, model=True):
+    plan.append({'t': t, 'kind': kind,
+                 'item': {'wire': wire, 'string': q, 'complete': complete, 'all_scopes': all_scopes,
+                          'parse_limit': parse_limit, 'mode': mode, 'model': model}})
+
+
+def plan_search(ctx, plan):
     rng = ctx.subrng('search')
-    cases = []
-    roots = []
     for i in range(ctx.size(22, 600)):
         t = gen_tree(rng, for_search=True, max_files=rng.choice([8, 16, 30]))
         add_gitignores(rng, t, density=0.35)
-        root = materialise(t)
-        roots.append(root)
+        wire = write_wire(t)
         mode = rng.choice(['real', 'sorted', 'reversed', 'shuffle%d' % rng.randint(0, 9)])
         for q in search_queries(rng, t, 4):
             for complete in (False, True):
                 all_scopes = rng.random() < 0.5
                 parse_limit = rng.choice([30, 30, 30, 2, 1])
-                run_search_case(ctx, t, q, complete, all_scopes, parse_limit, mode, reqs, cases, root=root)
-    return cases, roots
+                plan_case(plan, t, wire, q, complete, all_scopes, parse_limit, mode, 'search')
+
+
+def plan_clash(ctx, plan):
+    rng = ctx.subrng('clash')
+    for i in range(ctx.size(16, 500)):
+        stubs = rng.random() < 0.5
+        t, stems = CL.gen_clash_tree(rng, max_files=rng.choice([10, 20, 30]), stubs=stubs)
+        if rng.random() < 0.6:
+            add_gitignores(rng, t, density=0.25)
+        has_stub = any(rel.endswith('.pyi') for rel, _ in CL.src_files(t))
+        wire = write_wire(t)
+        mode = rng.choice(['real', 'sorted', 'reversed', 'shuffle%d' % rng.randint(0, 9)])
+        for q in CL.clash_queries(rng, t, stems, k=ctx.size(3, 8)):
+            both = rng.random() < 0.15
+            for complete in (False, True):
+                for all_scopes in ((False, True) if both else (rng.random() < 0.5,)):
+                    parse_limit = rng.choice([30, 30, 30, 30, 30, 2])
+                    plan_case(plan, t, wire, q, complete, all_scopes, parse_limit, mode, 'clash',
+                              model=not has_stub)
+
+
+def judge_plan(ctx, plan, results, reqs, cases):
+    for p, r in zip(plan, results):
+        it, t, root = p['item'], p['t'], r['root']
+        q, complete, all_scopes = it['string'], it['complete'], it['all_scopes']
+        if r['impl'] is None:
+            dotted = '.' in q.rpartition(' ')[2]
+            ctx.count(p['kind'] if p['kind'] == 'search' else 'clash-oracle', None, nontrivial=False,
+                      bucket='exception:%s' % r['exc'] + ('/dotted' if dotted and p['kind'] != 'search' else ''))
+            if not dotted and p['kind'] != 'search':
+                ctx.notes.append('clash: %s at %s for %r' % (r['exc'], r.get('exc_site'), q))
+            continue
+        case = {'tree': strip_tree(t), 'string': q, 'complete': complete, 'all_scopes': all_scopes,
+                'parse_limit': it['parse_limit'], 'mode': it['mode']}
+        impl4 = [[mp, line, name, typ] for mp, line, col, name, typ in r['impl']]
+        if p['kind'] == 'search':
+            search_oracle(ctx, t, root, case, q, complete, all_scopes, it['parse_limit'], impl4)
+        else:
+            case['generator'] = 'clash'
+            clash_oracle(ctx, t, root, case, q, complete, all_scopes, it['parse_limit'], r['impl'])
+        if r['req'] is not None:
+            reqs.append(r['req'])
+            cases.append((('search', case, root), impl4))
+
+
+def stream_project_search(ctx, reqs):
+    plan = []
+    plan_search(ctx, plan)
+    plan_clash(ctx, plan)
+    try:
+        results = common.parallel_map('props.c19', 'search_worker', [p['item'] for p in plan])
+    finally:
+        if _wire_dir[0] is not None:
+            shutil.rmtree(_wire_dir[0], ignore_errors=True)
+            _wire_dir[0] = None
+    cases = []
+    judge_plan(ctx, plan, results, reqs, cases)
+    return cases, []
+
+
+# ----------------------------------------------------------------- direct oracle on clash trees (ast)
+
+def spelled(name, word, complete):
+    return name.startswith(word) if complete else name == word
+
+
+def clash_expected(t, q, complete, all_scopes):
+    """what the property demands for this search, from python's ast and the file system layout only:
+    (definitions [(relpath, line, col, name, type)], modules [(name, [relpaths], nested)])"""
+    wt, _, word = q.rpartition(' ')
+    wt = 'function' if wt == 'def' else wt
+    defs = []
+    for rel, f in CL.src_files(t):
+        if ignored_reason(t, rel) is not None:
+            continue
+        for d in f['_defs']:
+            if (all_scopes or d.top) and (not wt or d.type == wt) and spelled(d.name, word, complete):
+                defs.append((rel, d.line, d.col, d.name, d.type))
+    mods = []
+    if not wt or wt == 'module':
+        for modname, paths, nested in CL.module_names(t):
+            if spelled(modname, word, complete) and all(ignored_reason(t, p) is None for p in paths):
+                mods.append((modname, paths, nested))
+    return defs, mods
+
+
+def clash_oracle(ctx, t, root, case, q, complete, all_scopes, parse_limit, impl5, quiet=False):
+    """returns the list of (what, expected) that are missing (after reporting them)"""
+    wt, _, word = q.rpartition(' ')
+    got = {(os.path.relpath(mp, root), line, col, name, typ) for mp, line, col, name, typ in impl5}
+    how = ("materialise input.tree; jedi.Project(root).%s(%r, all_scopes=%r); expected = python ast of the files"
+           "  (./check C19 --replay <file>)" % ('complete_search' if complete else 'search', q, all_scopes))
+    negative_check(ctx, t, case, {(g[0], g[1], g[3], g[4]) for g in got}, how)
+    bucket = ('complete' if complete else 'exact') + ('/all' if all_scopes else '/top')
+    key = (repr(case['tree']), q, complete, all_scopes, parse_limit)
+    if '.' in word or not word:
+        # dotted strings go through inference: the property text quantifies over identifiers and
+        # prefixes only - no completeness demand, the negative part above still applies
+        ctx.count('clash-oracle', key, nontrivial=False, bucket='dotted')
+        return []
+    missing = []
+    regex = re.compile(r'\b' + re.escape(word) + (r'' if complete else r'\b'))
+    mention_files = [rel for rel, f in CL.src_files(t) if regex.search(f['content'])]
+    defs, mods = clash_expected(t, q, complete, all_scopes)
+    mod_names = {m for m, _, _ in CL.module_names(t)}
+    if len(mention_files) <= parse_limit:
+        for exp in defs:
+            if exp in got:
+                continue
+            rel = exp[0]
+            base = rel.rsplit('/', 1)[-1]
+            own = base[:base.rindex('.')]
+            if own == '__init__':
+                own = rel.split('/')[-2] if '/' in rel else ''
+            if sibling_prefix_cause(t, rel):
+                cause = 'sibling-prefix'
+            else:
+                cause = 'unknown'
+            missing.append(('definition', list(exp)))
+            ctx.fail('search-complete', 'definition in a non-ignored file is not reported',
+                     dict(case, cause=cause, file=rel, file_named_like_query=(own == word)),
+                     expected=list(exp),
+                     observed={'results_in_file': sorted(list(g) for g in got if g[0] == rel)}, how=how)
+    elif len({g[0] for g in got if g[4] != 'module'}) > parse_limit:
+        ctx.fail('search-complete', 'more files searched than the parse limit allows',
+                 dict(case, cause='limit'), expected=parse_limit, observed=sorted({g[0] for g in got}), how=how)
+    for modname, paths, nested in mods:
+        # X.py / X.pyi, X/__init__.py(i) and the stub package X-stubs/ next to them are one module X
+        here = paths[0].rsplit('/', 2 if paths[0].rsplit('/', 1)[-1].startswith('__init__.') else 1)[0] \
+            if '/' in paths[0] else ''
+        if paths[0].rsplit('/', 1)[-1].startswith('__init__.') and paths[0].count('/') == 1:
+            here = ''
+        stubpkg = (here + '/' if here else '') + modname + '-stubs/__init__.py'
+        if any(g[0] in paths + [stubpkg, stubpkg + 'i'] and g[4] == 'module' and g[3] == modname for g in got):
+            continue
+        if any(sibling_prefix_cause(t, p) for p in paths):
+            cause = 'sibling-prefix'
+        elif complete and modname != word and nested:
+            cause = 'nested-module-prefix'
+        elif complete and modname != word and all(p.endswith('/__init__.pyi') for p in paths):
+            cause = 'stub-only-package-prefix'
+        else:
+            cause = 'unknown'
+        missing.append(('module', [paths, modname]))
+        ctx.fail('search-complete', 'module / package so named is not reported',
+                 dict(case, cause=cause, file=paths[0]), expected=[paths, 1, modname, 'module'],
+                 observed={'module_results': sorted(list(g) for g in got if g[4] == 'module')}, how=how)
+    clash = word in mod_names and any(d[3] == word or (complete and d[3].startswith(word)) for d in defs)
+    ctx.count('clash-oracle', key, nontrivial=bool(defs or mods),
+              bucket=bucket + ('/query-is-file-name' if word in mod_names else
+                               '/query-is-prefix-of-file-name' if any(m.startswith(word) for m in mod_names)
+                               else '/identifier-only') + ('+defined-there' if clash else ''))
+    return missing
 
 
 # ----------------------------------------------------------------- fixed probes (DESIGN section 6, F6 and later)
@@ -997,6 +1290,25 @@ def stream_corpus(ctx, reqs):
                 case = {'tree': strip_tree(t), 'mode': mode, 'except_paths': [], 'corpus': fn}
                 cases.append((('walk', case, root), impl))
                 walk_oracle(ctx, t, root, mode, (), impl, case)
+        elif item.get('kind') == 'search':
+            # {'tree', 'queries': [[string, complete, all_scopes], ..]}: the definitions are read off the
+            # files with python's ast (clash oracle) and the .py-only trees also go through the model
+            t = tree_from_json(item['tree'])
+            for _, node in all_dirs(t):
+                for f in node['files']:
+                    if f['name'].endswith(('.py', '.pyi')):
+                        f['_defs'] = CL.ast_defs(f['content'])
+            has_stub = any(rel.endswith('.pyi') for rel, _ in CL.src_files(t))
+            root = materialise(t)
+            roots.append(root)
+            for q, complete, all_scopes in item['queries']:
+                for mode in item.get('modes', ['sorted', 'reversed']):
+                    r = search_worker({'wire': None, 'tree': (t, root), 'string': q, 'complete': complete,
+                                       'all_scopes': all_scopes, 'parse_limit': 30, 'mode': mode,
+                                       'model': not has_stub})
+                    plan = [{'t': t, 'kind': 'clash', 'item': {'string': q, 'complete': complete,
+                                                               'all_scopes': all_scopes, 'parse_limit': 30, 'mode': mode}}]
+                    judge_plan(ctx, plan, [r], reqs, cases)
         elif item.get('kind') == 'gitignore':
             from jedi.inference import references
             from jedi.file_io import FolderIO
@@ -1068,6 +1380,9 @@ def compare(ctx, cases, answers):
             if model != impl:
                 ctx.tie_broken('correspondence:script', short({'case': case, 'impl': impl, 'model': model}, 1500))
         elif stream == 'search':
+            if isinstance(ans, dict):          # the transcribed file branch of step 1 is not executable
+                ctx.tie_broken('correspondence:search', short({'model': ans}))
+                continue
             model = [[m[0], m[1], m[2], m[3]] for m in ans if m[0] is not None]
             ctx.count('search', (repr(case['tree']), case['string'], case['complete'], case['all_scopes'],
                                  case['parse_limit'], case['mode']),
@@ -1089,29 +1404,62 @@ def compare(ctx, cases, answers):
                                                                'tree': case['tree']}, 3000))
 
 
+def run_driver_chunks(reqs, jobs=6, min_split=600):
+    """common.run_driver_parallel only splits above 4000 requests; the walk / search requests carry
+    whole trees, so split (round-robin: the heavy requests are neighbours) already for fewer"""
+    if len(reqs) < min_split:
+        return common.run_driver('C19', reqs)
+    if len(reqs) >= 4000:
+        jobs = max(jobs, 10)
+    from concurrent.futures import ThreadPoolExecutor
+    chunks = [reqs[k::jobs] for k in range(jobs)]
+    with ThreadPoolExecutor(jobs) as ex:
+        parts = list(ex.map(lambda c: common.run_driver('C19', c), chunks))
+    out = [None] * len(reqs)
+    for k, part in enumerate(parts):
+        out[k::jobs] = part
+    return out
+
+
 def run(ctx):
+    import time
     _load_own_known(ctx)
     os.makedirs(SCRATCH, exist_ok=True)
     reqs = []
     cases = []
     roots = []
+    timing = [('build+audit', round(time.time() - ctx.t0, 1))]
+
+    def timed(name, f):
+        t = time.time()
+        r = f(ctx, reqs)
+        timing.append((name, round(time.time() - t, 1)))
+        return r
     try:
-        for stream in (stream_corpus, stream_probes, stream_walk, stream_search):
-            c, r = stream(ctx, reqs)
+        for stream in (stream_corpus, stream_probes, stream_walk, stream_project_search):
+            c, r = timed(stream.__name__, stream)
             cases += c
             roots += r
-        cases += stream_sync(ctx, reqs)
-        cases += stream_gitignore(ctx, reqs)
-        cases += stream_split(ctx, reqs)
-        cases += stream_script(ctx, reqs)
+        cases += timed('sync', stream_sync)
+        cases += timed('gitignore', stream_gitignore)
+        cases += timed('split', stream_split)
+        cases += timed('script', stream_script)
         if ctx.model_ok:
-            answers = common.run_driver_parallel('C19', reqs)
+            t = time.time()
+            answers = run_driver_chunks(reqs)
+            timing.append(('lean driver (%d requests)' % len(reqs), round(time.time() - t, 1)))
             compare(ctx, cases, answers)
         else:
             ctx.notes.append('model did not build: correspondence skipped, oracles only')
     finally:
         for r in roots:
             cleanup(r)
+    try:
+        load = open('/proc/loadavg').read().split()[0]
+    except OSError:
+        load = '?'
+    ctx.notes.append('wall seconds per phase (1-min load average %s): %s'
+                     % (load, ', '.join('%s %.1f' % x for x in timing)))
     ctx.obligations['assumptions'] = [
         'os.walk / os.scandir: top-down, dirs and non-dirs in one listing order, descends into what is left in `dirs`; '
         'the order is a parameter of the model (the real order and three forced orders are exercised); no symlinks',
@@ -1136,11 +1484,29 @@ def replay(ctx, payload):
                 from jedi.inference import references
                 references._PARSED_FILE_LIMIT = inp.get('parse_limit', 30)
                 mode = inp.get('mode', 'real')
+                got = []
                 with shim_os(None if mode == 'real' else OsShim(mode)):
                     p = jedi.Project(root)
                     f = p.complete_search if inp.get('complete') else p.search
                     for n in f(inp['string'], all_scopes=inp.get('all_scopes', False)):
-                        print(n.module_path and os.path.relpath(str(n.module_path), root), n.line, n.name, n.type)
+                        rel = n.module_path and os.path.relpath(str(n.module_path), root)
+                        if rel and not rel.startswith('..'):
+                            got.append([rel, n.line, n.column, n.name, n.type])
+                            print(rel, n.line, n.column, n.name, n.type)
+                exp = payload.get('expected')
+                if payload.get('stream') == 'search-complete' and isinstance(exp, list) and len(exp) in (4, 5) \
+                        and exp[-1] != 'module':
+                    # a definition that has to be reported: (path, line[, column], name, type)
+                    found = any((g if len(exp) == 5 else [g[0], g[1], g[3], g[4]]) == exp for g in got)
+                    print('expected definition %r: %s' % (exp, 'reported - NOT reproduced' if found
+                                                          else 'MISSING - reproduced'))
+                    return 0 if found else 1
+                if payload.get('stream') == 'search-negative' and isinstance(payload.get('observed'), dict):
+                    o = payload['observed']
+                    found = any(g[0] == o.get('path') and g[3] == o.get('name') and g[4] == o.get('type') for g in got)
+                    print('result from the ignored place %r: %s' % (o.get('path'), 'reported - reproduced' if found
+                                                                    else 'absent - NOT reproduced'))
+                    return 1 if found else 0
             else:
                 for e in run_walk_impl(root, inp.get('mode', 'real'), ()):
                     print(e[0], os.path.relpath(e[1], root))
